@@ -132,7 +132,7 @@ fn find_entry_clause(ctx: &mut Ctx, f: &Foreign, rng: &mut Rng) {
         }
         let mut probes: Vec<u64> = Vec::new();
         let step = (entries.len() / 12).max(1);
-        for e in entries.iter().step_by(step) {
+        for e in entries.iter().step_by(step).chain(entries.last()) {
             let end = e.tile_id + u64::from(e.run_length);
             probes.extend([e.tile_id, e.tile_id.wrapping_sub(1), e.tile_id + 1, end.wrapping_sub(1), end, end + 1]);
         }
@@ -190,6 +190,20 @@ fn one_foreign(ctx: &mut Ctx, i: u64) {
         o.gaps = false;
         o.offset_style = 2; // shuffled offsets: high-entropy offset column
     }
+    let regular = i % 64 == 37;
+    if regular {
+        // the most regular directory there is: consecutive ids, equal lengths, contiguous offsets, one run at the very
+        // end; 32 .. 60k entries in ONE directory where the codec allows it (compression ratios far above 1000:1)
+        codec = R::CODECS[((i / 64) % 4) as usize];
+        o = gen::gen_foreign_opts(&mut rng, codec, 100);
+        o.n_entries = *rng.pick(&[32usize, 33, 100, 4096, 10_000, 20_000, 60_000]);
+        o.regular = Some(*rng.pick(&[1u32, 8, 100]));
+        o.depth = 1;
+        o.offset_style = 0;
+        o.mixed_dirs = false;
+        o.small_metadata = true;
+        ctx.count("layouts_with_regular_dense_directory");
+    }
     let f = gen::gen_foreign(&mut rng, &o);
     // the generator's output must be spec-valid and the reference must agree with the ground truth
     match R::validate(&f.bytes, &foreign_opts()) {
@@ -214,6 +228,14 @@ fn one_foreign(ctx: &mut Ctx, i: u64) {
     }
     if o.prefix_entries {
         ctx.count("layouts_with_prefix_sharing_entries");
+    }
+    if let Ok((_, w)) = R::walk(&f.bytes, &R::WalkLimits::default(), false) {
+        if f.header.root_offset == 127 && w.pointers.iter().any(|(_, p)| p.offset == 127) {
+            ctx.count("layouts_with_leaf_at_section_offset_127");
+        }
+        if o.mixed_dirs && f.n_leaves > 0 {
+            ctx.count("layouts_with_mixed_directories");
+        }
     }
     ctx.count(&format!("codec.{}", R::codec_name(codec)));
     if o.permute_sections {
@@ -315,7 +337,7 @@ fn one_foreign(ctx: &mut Ctx, i: u64) {
             }
         }
     }
-    if i % 4 == 0 {
+    if i % 4 == 0 || regular {
         find_entry_clause(ctx, &f, &mut rng);
     }
     if ctx.want_sample() {
